@@ -10,7 +10,8 @@ Findings visible in this file (the statements say exactly where the property fai
 * D5a  18 shipped combinations cannot build a facade (`knownUnbuildable`, `not_req_fails`, `listed_combinations_fail`);
 * D5b  `GeckoWaterCare.__str__` raises IndexError for mode 5 (`watercare_mode5_raises`; full statement proved for the
        corrected guard in `watercare_total_if_fixed`), and through the eager `{sender}` formatting of
-       `Observable._on_change` so does `change_watercare_mode(5)` (`watercare_change_mode5_raises`);
+       `Observable._on_change` so does `change_watercare_mode(5)` (`watercare_change_mode5_raises`).  These theorems are
+       stated relative to the guard operator read from the source, so they keep building when the fix lands;
 * (latent, not part of the public surface) the threaded facade keeps its reminders manager private; after any reminder
        report its `get_reminder` would raise AttributeError on the tuples `_on_reminders` stores (`sync_get_reminder_raises`).
 -/
@@ -70,25 +71,29 @@ theorem read_never_raises (it : Item) (b : Block) (hr : Item.Readable it) (hb : 
 /-! ### watercare: every mode byte and None -/
 
 /- FULL statement:  ∀ mode : Option Int, (∃ s, wcStr mode = .ok s) ∧ (∃ s, wcMonitor mode = .ok s)
-   FALSE today (D5b): the guard is `active_mode > len(WATERCARE_MODE_STRING)`, so mode 5 reaches the label lookup. -/
-theorem watercare_total_partial (mode : Option Int) (h : mode ≠ some 5) :
+   FALSE today (D5b): the guard is `active_mode > len(WATERCARE_MODE_STRING)`, so mode 5 reaches the label lookup.
+   The guard operator is read from the source on every run (`wcGuardStrict`); the hypothesis below excludes mode 5 only
+   while the operator is `>`, so once the one-character fix lands it is vacuous and this IS the full statement. -/
+theorem watercare_total_partial (mode : Option Int) (h : wcGuardStrict = true → mode ≠ some 5) :
     (∃ s, wcStr mode = .ok s) ∧ (∃ s, wcMonitor mode = .ok s) := by
   refine ⟨?_, wcMonitor_ok mode⟩
   have h5 : (watercareModes.length : Int) = 5 := by decide
-  have hg : wcGuardStrict = true := rfl
+  unfold wcStr
+  cases hg : wcGuardStrict with
+  | true => exact wcStrWith_true_ok mode (by rw [h5]; exact h hg)
+  | false => exact wcStrWith_false_ok mode
+
+/-- the witness: with the guard `>` (the code today) mode 5 raises IndexError in `__str__` ... -/
+theorem watercare_mode5_raises (hg : wcGuardStrict = true) : wcStr (some 5) = .error .indexErr := by
   unfold wcStr
   rw [hg]
-  exact wcStrWith_true_ok mode (by rw [h5]; exact h)
-
-/-- the witness: mode 5 raises IndexError in `__str__` ... -/
-theorem watercare_mode5_raises : wcStr (some 5) = .error .indexErr := by decide +kernel
+  decide +kernel
 
 /-- ... and therefore, because `Observable._on_change` formats `{sender}` eagerly, in `change_watercare_mode(5)` -/
-theorem watercare_change_mode5_raises (old : Option Int) (h : old ≠ some 5) : wcChange old (some 5) = .error .indexErr := by
+theorem watercare_change_mode5_raises (hg : wcGuardStrict = true) (hf : onChangeFormatsSender = true) (old : Option Int)
+    (h : old ≠ some 5) : wcChange old (some 5) = .error .indexErr := by
   unfold wcChange
-  rw [if_neg h]
-  have : onChangeFormatsSender = true := rfl
-  rw [this, if_pos rfl, watercare_mode5_raises]
+  rw [if_neg h, hf, if_pos rfl, watercare_mode5_raises hg]
   rfl
 
 /-- the FULL statement holds for the one-character correction (`>=`): every mode, including None, 5, negative numbers -/
@@ -213,9 +218,11 @@ example : (match construct { demoProfile with log := demoProfile.log.filter (·.
 example : knownUnbuildable.length = 18 ∧ allCombos.length = 895 ∧ listedCombos.length = 18 := by decide +kernel
 example : Req (mkProfile Packs.inyt_cfg_50 Packs.inyt_log_50) :=
   req_of_parts outputs_inyt _ _ part_inyt_cfg_50 part_inyt_log_50
-/-- watercare: the partial theorem's hypothesis is met by 255 of the 256 mode bytes; reminders: a three-record report -/
+/-- watercare: the partial theorem's hypothesis is met by 255 of the 256 mode bytes and None; reminders: a three-record report -/
 example : wcStr (some 4) = .ok "WaterCare: Weekender" ∧ wcStr (some 6) = .ok "Unknown Water care mode (index:6)" ∧
     wcStr none = .ok "WaterCare: Waiting..." := by decide +kernel
+example : wcStrWith true (some 5) = .error .indexErr ∧ wcStrWith false (some 5) = .ok "Unknown Water care mode (index:5)" := by
+  decide +kernel
 example : reminderMember (2, -3) .str_ = some (.ok (.str "CleanFilter overdue by 3 days")) ∧
     remindersMember demoIdent (some [(1, 5), (0, 0), (2, -3)]) .reminders = some (.ok (.list 2)) := by decide +kernel
 
